@@ -335,6 +335,11 @@ def dispatchPy (restoreC : Bool) (p : Proc) (taskEnv : List (Nat × Nat)) (pl : 
    if restoreC then p
    else { p with cenv := if p.real then applyEdits (setMany p.cenv taskEnv) pl.envEdits else p.cenv, real := false })
 
+/-- a function request whose callable cannot be obtained (unknown name, a PythonTask that comes with
+    arguments): the dispatcher raises before anything runs; the request fails, the process is as before -/
+def dispatchUnresolved (p : Proc) : Report × Proc :=
+  ({ out := [], err := [], ret := 1, val := none, exc := some 0 }, p)
+
 /-- `_dispatch_proc/_shell`: a child process; exit code and captured output are reported as they are -/
 def dispatchProc (out err : List Nat) (exitCode : Nat) : Report :=
   { out := out, err := err, ret := exitCode, val := none, exc := none }
